@@ -11,6 +11,7 @@ package kubeh
 import (
 	"crypto/sha256"
 	"fmt"
+	"strconv"
 
 	"github.com/cosmos/cosmos-sdk/types/bech32"
 
@@ -65,11 +66,12 @@ type ARound struct {
 	St   ASettings  `json:"st"`
 }
 
+// ALease: the sequence numbers are decimal strings (TLC integers are 32 bit signed; dseq is a uint64).
 type ALease struct {
 	Owner    string `json:"owner"`
-	DSeq     uint64 `json:"dseq"`
-	GSeq     uint32 `json:"gseq"`
-	OSeq     uint32 `json:"oseq"`
+	DSeq     string `json:"dseq"`
+	GSeq     string `json:"gseq"`
+	OSeq     string `json:"oseq"`
 	Provider string `json:"provider"`
 	NS       string `json:"ns,omitempty"` // abstract name in the model universe; unused here
 }
@@ -100,8 +102,26 @@ func address(name string) string {
 	return s
 }
 
-func leaseID(l ALease) mtypes.LeaseID {
-	return mtypes.LeaseID{Owner: address(l.Owner), DSeq: l.DSeq, GSeq: l.GSeq, OSeq: l.OSeq, Provider: address(l.Provider)}
+func leaseID(l ALease) (mtypes.LeaseID, error) {
+	d, err := strconv.ParseUint(l.DSeq, 10, 64)
+	if err != nil {
+		return mtypes.LeaseID{}, err
+	}
+	g, err := strconv.ParseUint(l.GSeq, 10, 32)
+	if err != nil {
+		return mtypes.LeaseID{}, err
+	}
+	o, err := strconv.ParseUint(l.OSeq, 10, 32)
+	if err != nil {
+		return mtypes.LeaseID{}, err
+	}
+	return mtypes.LeaseID{Owner: address(l.Owner), DSeq: d, GSeq: uint32(g), OSeq: uint32(o), Provider: address(l.Provider)}, nil
+}
+
+// concrete is the lease id as the real code sees it, sequence numbers back as decimal strings.
+func concrete(lid mtypes.LeaseID) ALease {
+	return ALease{Owner: lid.Owner, DSeq: strconv.FormatUint(lid.DSeq, 10), GSeq: strconv.FormatUint(uint64(lid.GSeq), 10),
+		OSeq: strconv.FormatUint(uint64(lid.OSeq), 10), Provider: lid.Provider}
 }
 
 func group(r ARound) (*manifest.Group, error) {
